@@ -541,15 +541,15 @@ class DictReader:
         elif itype == "binop":
             name = json_instruction["name"]
             ty = self.get_type(json_instruction["type"])
-            a = self.get_value_ref(json_instruction["a"])
+            a = self.get_value_ref(json_instruction["a"], ty=ty)
             operation = json_instruction["operation"]
-            b = self.get_value_ref(json_instruction["b"])
+            b = self.get_value_ref(json_instruction["b"], ty=ty)
             instruction = ir.Binop(a, operation, b, name, ty)
             self.register_value(instruction)
         elif itype == "unop":
             name = json_instruction["name"]
             ty = self.get_type(json_instruction["type"])
-            a = self.get_value_ref(json_instruction["a"])
+            a = self.get_value_ref(json_instruction["a"], ty=ty)
             operation = json_instruction["operation"]
             instruction = ir.Unop(operation, a, name, ty)
             self.register_value(instruction)
@@ -644,8 +644,13 @@ class DictReader:
         assert value.name not in self.scopes[-1].value_map
         self.scopes[-1].value_map[value.name] = value
 
-    def get_value_ref(self, name, ty=ir.ptr):
-        """Retrieve reference to a value."""
+    def get_value_ref(self, name, ty=None):
+        """Retrieve reference to a value.
+
+        If the value is not yet defined, create a placeholder undefined
+        value. The placeholder gets the type ty, if the type of the
+        value is known at the place where it is used.
+        """
         for scope in reversed(self.scopes):
             if name in scope.value_map:
                 value = scope.value_map[name]
@@ -654,8 +659,10 @@ class DictReader:
             if name in self.undefined_values:
                 value = self.undefined_values[name]
             else:
-                value = ir.Undefined(name, ty)
+                value = ir.Undefined(name, ir.ptr)
                 self.undefined_values[name] = value
+            if ty is not None:
+                value.ty = ty
         return value
 
     def enter_scope(self):
